@@ -7,7 +7,13 @@ import (
 	"safecheck/relang"
 )
 
-func init() { register("C18", "proof", runC18) }
+func init() {
+	register("C18", "proof", func(p *Program, r *Report) {
+		runC18(p, r)
+		checkBoundsProven(p, r, "C18.B1", "identifier.go")
+		checkLoopsMakeProgress(p, r, "C18.B2", "identifier.go")
+	})
+}
 
 const specID = `^[A-Za-z][-_A-Za-z0-9]*$`
 
